@@ -107,8 +107,16 @@ PeerRxOk(h, i) ==
   /\ (Finished(h, w.src, w.tag) => x.end.k = "fin" /\ DataIs(x, pre, total, salt))
   /\ (x.end.k = "fin" => DataIs(x, pre, total, salt))
 
+\* every scripted accept and read happened: a stream that never surfaces, or surfaces without
+\* being readable, has lost all its bytes
+AllDelivered(h) ==
+  \A i \in Idx(h) : (h[i].src \in Sides /\ h[i].ev = "op_done" /\ Has(h[i], "op")) =>
+     /\ (h[i].op \in AcceptOps => h[i].res = "ok")
+     /\ (h[i].op = "read" => h[i].res = "done")
+
 JudgeC01(h) ==
   /\ Reads(h) \cup PeerRx(h) # {}
+  /\ AllDelivered(h)
   /\ \A i \in Reads(h) : ReadOk(h, i)
   /\ \A i \in PeerRx(h) : PeerRxOk(h, i)
 
